@@ -9,7 +9,7 @@ import TrompModel.Model.Ring
 namespace Tromp.Cxx
 
 /-- `list_elem<T>::unlink` — translated from include/trompeloeil/mock.hpp:1369 -/
-def ring_unlink (this : Ring.Ptr) (h0 : Ring.Heap) : Ring.Heap := Id.run do
+def ring_unlink (this : Ring.Ptr) (h0 : Ring.Heap Ring.Ptr) : Ring.Heap Ring.Ptr := Id.run do
   let mut h := h0
   let n := (h.next this)
   let p := (h.prev this)
